@@ -1,7 +1,7 @@
 """C15 — mem conversions: partial-output contracts and pairing structure (structural clauses D1–D3)."""
 import os, re
 from mirlib import *
-import r_effect, t_writeonly, r_surr, r_lookahead, factsbuild
+import r_effect, t_writeonly, r_surr, r_lookahead, factsbuild, scan
 
 MANIFEST = {
     'category': 'other',
@@ -13,8 +13,11 @@ MANIFEST = {
             'body ever loads an element of its destination (T-WRITEONLY), so results cannot depend on old buffer contents; (D3) pairing '
             'structure of the UTF-16 -> UTF-8 converters: every surrogate-class test denotes exactly D800-DBFF / DC00-DFFF / D800-DFFF, and '
             'after a high surrogate the "no next unit" decision tests exactly the index that is then read from the *source* (never the '
-            'destination), so a pair is neither split nor misjudged as unpaired because of buffer ends. Exactness of every conversion '
-            '(arithmetic, stride bookkeeping) is numerical and not decided.',
+            'destination), so a pair is neither split nor misjudged as unpaired because of buffer ends; (D4, R-SCAN) the two scalar automata '
+            'the conversions are built on — utf16_valid_up_to (ensure_utf16_validity, the without-replacement forms) and '
+            'convert_utf8_to_utf16_up_to_invalid (every UTF-8 -> UTF-16 form) — skip only complete valid sequences, report the end only when '
+            'reached, and stop only where no valid continuation exists or the output is full (path-sensitive abstract interpretation, see '
+            'C14-D5). Exactness of the converted values (arithmetic) and stride bookkeeping are not decided here.',
     'note': 'Trusted: rustc MIR, mirx, rule library; the doc comments of src/mem.rs as the statement of the partial-output contract.',
     'technique': 'per-configuration effect analysis over the call graph + information-flow rule + exact interval extraction of surrogate tests',
 }
@@ -68,4 +71,5 @@ def run(rep, facts, tier):
         rep.floor('R-SURR', 'surrogate tests in mem/utf_8', n, 12, c)
         n = r_lookahead.run(rep, f, c, 'R-LOOKAHEAD', in_scope)
         rep.floor('R-LOOKAHEAD', 'surrogate look-ahead sites in mem/utf_8', n, 2, c)
+        scan.run_specs(rep, f, c, 'R-SCAN', ['mem::utf16_valid_up_to', 'utf_8::convert_utf8_to_utf16_up_to_invalid'])
     return ('other', MANIFEST['text'], [])
